@@ -5,6 +5,8 @@ import json, subprocess
 props=[json.loads(l) for l in open('/verif/properties.jsonl')]
 hooks_commits=subprocess.run(['git','-C','/repo','log','--format=%h','--reverse','--grep=^verif hooks'],capture_output=True,text=True).stdout.split()
 C={
+ "C14":("model_checking","bounded exhaustive operation-sequence enumeration after a fixed set of reads, on a harness file system in mmap-lifetime mode (memory handed out by File.Slice poisoned on every write/truncate/close) and on the real fs.OSMMap/fs.OS with faults turned into panics; returned-slice-stability and input-slice-independence oracles",
+        "depth bound as reported; simfs poison mode models the strictest FileSystem the interface allows"),
  "C17":("model_checking","bounded exhaustive program enumeration (all words <= d over writes/deletes/compaction/restart/backup/torn-tail restarts/large records) executed on simfs, fs.Mem, fs.OS and fs.OSMMap with a four-way differential oracle on per-call results and segment bytes",
         "depth bound as reported; error texts not compared; hash seed pinned"),
  "C13":("model_checking","exhaustive interleaving exploration of the REAL lock system calls (stat/open/flock/unlink/close of fs.OS on a scratch directory, yield hooks as scheduling points, unbounded preemptions) for 2-3 openers/closers/dying holders + bounded exhaustive Open/Close/Kill/Put words on fs.OS, fs.OSMMap, fs.Mem; holder-count, acquiredExisting and failed-Open-changes-nothing oracles",
